@@ -42,7 +42,7 @@ def block(c, cat):
         o.append('    decltype(auto) r = %s;' % call)
         o.append('    ht::check((const void*)&r == (const void*)&a%d, cid, "does not return the container argument itself");' % c['cont'])
         o.append('    ht::check((std::is_same_v<decltype(%s), %s&&>), cid, "container not returned as an rvalue");' % (call, C))
-        o.append('    ht::check(a%d.items.size() == 1 && a%d.items[0] == %d, cid, "wrong element appended");' % (c['cont'], c['cont'], c['elem']))
+        o.append('    ht::check(a%d.items.size() == 2 && a%d.items[0] == -7 && a%d.items[1] == %d, cid, "the element is not appended after the existing contents");' % (c['cont'], c['cont'], c['cont'], c['elem']))
         o.append('    ht::check(ht::copies == 0 && ht::moves == 0, cid, "the container or an argument was copied or moved");')
         o.append('    ht::check(%s, cid, "an argument was modified");' % intact)
     elif h == 'val':
